@@ -156,13 +156,13 @@ InnerItems(tpl) ==
       Opt(n) == IF n \in ug THEN {V(a) : a \in FldVals} ELSE {V(a) : a \in CondVals}
   IN {M(f) : f \in PFun(ug \cup ur, Opt)}
 
-AltField(fv) ==
+AltField(n, fv) ==
   IF fv.k = "v" THEN V(AltVal(fv.v))
-  ELSE IF fv.l = <<>> THEN L(<<S("p1")>>)
+  ELSE IF fv.l = <<>> THEN (IF n \in SubS THEN L(<<S("p1")>>) ELSE L(<<M(<<>>)>>))
   ELSE IF fv.l[1].k = "s" THEN L(<<>>)
   ELSE L(<<AltInner(fv.l[1])>>)
 
-AltOuter(m) == M([n \in DOMAIN m.f |-> AltField(m.f[n])])
+AltOuter(m) == M([n \in DOMAIN m.f |-> AltField(n, m.f[n])])
 
 OuterItems(tpl) ==
   LET uf == Used(tpl, {"fld"}, Flds)
